@@ -1,0 +1,48 @@
+//go:build verif
+
+// Contracts for the verification machinery under /verif (contract-based deductive
+// verification). This file is comment-only, is excluded from every normal build by the
+// "verif" build tag, and declares nothing. See /verif/DESIGN.md §4.
+
+package fhir
+
+// C15: the offset is rendered as sign, whole hours, remaining whole minutes of |offset|
+//@ func extractTimezone(t) (res)
+//@   assuming tOff(t) > 0 - 9223372036854775808
+//@   ensures tOff(t) < 0 ==> res == sprintf_SII("%s%02d:%02d", "-", (0 - tOff(t)) / 3600, ((0 - tOff(t)) % 3600) / 60)
+//@   ensures tOff(t) >= 0 ==> res == sprintf_SII("%s%02d:%02d", "+", tOff(t) / 3600, (tOff(t) % 3600) / 60)
+//@   assigns nothing
+
+// C15: a FHIR Time is a time of day: the microseconds of the instant within its (UTC) day,
+// always in [0, 24h), at microsecond precision
+//@ func Time(t) (res)
+//@   let rep = fits(fdiv(tInst(t), 1000), int64(0))
+//@   ensures res != nil
+//@   ensures rep ==> 0 <= res.ValueUs && res.ValueUs < 86400000000
+//@   ensures rep ==> int(res.ValueUs) == todUs(t)
+//@   ensures res.Precision == dtpb.Time_MICROSECOND
+//@   assigns nothing
+
+// C15: an error exactly when a component is out of range; otherwise the value is the exact
+// microsecond count and the precision the coarsest that loses nothing
+//@ func TimeOfDay(hour, minute, second, micros) (res, err)
+//@   let bad = hour < 0 || hour >= 24 || minute < 0 || minute >= 60 || second < 0 || second >= 60 || micros < 0 || micros >= 1000000
+//@   ensures (err != nil) == bad
+//@   ensures bad ==> res == nil
+//@   ensures !bad ==> res != nil && int(res.ValueUs) == hour * 3600000000 + minute * 60000000 + second * 1000000 + micros
+//@   ensures !bad && micros == 0 ==> res.Precision == dtpb.Time_SECOND
+//@   ensures !bad && micros != 0 && micros % 1000 == 0 ==> res.Precision == dtpb.Time_MILLISECOND
+//@   ensures !bad && micros % 1000 != 0 ==> res.Precision == dtpb.Time_MICROSECOND
+//@   assigns nothing
+
+// C15: Date/DateTime elements carry the instant in microseconds and the offset of the Time
+//@ func Date(t) (res)
+//@   ensures res != nil && res.Precision == dtpb.Date_DAY
+//@   ensures fits(fdiv(tInst(t), 1000), int64(0)) ==> int(res.ValueUs) == fdiv(tInst(t), 1000)
+//@   defines res.Timezone == tzS(t)
+//@   assigns nothing
+//@ func DateTime(t) (res)
+//@   ensures res != nil && res.Precision == dtpb.DateTime_MICROSECOND
+//@   ensures fits(fdiv(tInst(t), 1000), int64(0)) ==> int(res.ValueUs) == fdiv(tInst(t), 1000)
+//@   defines res.Timezone == tzS(t)
+//@   assigns nothing
